@@ -165,9 +165,9 @@ func runTwoHubs(id int, seed int64, nops int) *thResult {
 		return a
 	}
 	// configuration facts tracked by the harness (user intent)
-	reg := map[string]bool{}     // X registered the other
-	auto := map[string]bool{}    // auto accept
-	vis := map[string]bool{}     // X sees the other via mDNS
+	reg := map[string]bool{}      // X registered the other
+	auto := map[string]bool{}     // auto accept
+	vis := map[string]bool{}      // X sees the other via mDNS
 	pinned := map[string]string{} // stored SHIP id X holds for the other ("" none)
 	cancelled := map[string]bool{}
 	op := func(s string) { res.ops = append(res.ops, s) }
